@@ -10,7 +10,12 @@
                                the level is in it) - values converted BEFORE the first text was met included
      text_level_read           on such labels the fill of read_row_group performs no conversion and finds the directory's own text:
                                row_cell = (k, VStr x)
-   Levels WITHOUT any text keep the guessed values, merged under Python's == (1 and 1.0 and True are one label): exercised only.   *)
+   Levels WITHOUT any text keep the guessed values, merged under Python's == (1 and 1.0 and True are one label) - section NumericLevel:
+
+     drill_numeric_level       if NO directory text of level k is text for the guesses, every label of k is the guess of some directory
+                               text of the level, and the fill of read_row_group gives a row group a label that is == (Python's ==) to the
+                               guess of its own directory text: numerically equal, not necessarily of the same kind
+     numeric_level_exact_refuted   "the guessed value itself comes back" is false: directories 1 and True - the rows of True read 1       *)
 From Coq Require Import NArith ZArith Bool Ascii String Arith Lia List.
 From Pq Require Import Base.Bytes Impl.Partition Proofs.PartitionStr Proofs.PartitionProofs Proofs.PartitionE2E.
 Import ListNotations.
@@ -194,3 +199,144 @@ Section Mixed.
     - intros [pp' [Hp' Hx]]. apply in_concat. exists (drill_hits (snd pp')). split; [apply in_map_iff; exists pp'; split; [reflexivity|exact Hp']|exact Hx].
   Qed.
 End Mixed.
+
+Section NumericLevel.
+  Variables F T D : Type.
+  Variable feqb : F -> F -> bool.
+  Variable teqb : T -> T -> bool.
+  Variable deqb : D -> D -> bool.
+  Variable f_eq_Z : F -> Z -> bool.
+  Variable parse_float : bool -> str -> option F.
+  Variable parse_time_np : bool -> str -> option T.
+  Variable parse_time_fmt parse_time_pd : str -> option T.
+  Variable parse_delta : str -> option D.
+  Hypothesis feqb_spec : forall a b, reflect (a = b) (feqb a b).
+  Hypothesis teqb_spec : forall a b, reflect (a = b) (teqb a b).
+  Hypothesis deqb_spec : forall a b, reflect (a = b) (deqb a b).
+  Notation value := (value F T D).
+  Notation pstate := (pstate F T D).
+  Notation veqb := (veqb F T D feqb teqb deqb f_eq_Z).
+  Notation parse_guess := (parse_guess F T D parse_float parse_time_pd parse_delta).
+  Notation add_hit := (add_hit F T D feqb teqb deqb f_eq_Z parse_float parse_time_np parse_time_fmt parse_time_pd parse_delta).
+  Notation cats_add := (cats_add F T D feqb teqb deqb f_eq_Z).
+  Notation final_cats := (final_cats F T D).
+  Notation is_vstr := (is_vstr F T D).
+  Notation seen := (st_seen F T D).
+  Notation strings := (st_strings F T D).
+  Notation cats := (st_cats F T D).
+
+  Record K (st : pstate) : Prop := {
+    k_text : forall k, mem_str k (strings st) = true -> exists x', In (k, x') (seen st) /\ is_vstr (parse_guess x') = true;
+    k_seen : forall k x, In (k, x) (seen st) -> mem_str k (strings st) = false ->
+             exists vs, In (k, vs) (cats st) /\ existsb (veqb (parse_guess x)) vs = true;
+    k_cats : forall k vs, In (k, vs) (cats st) -> mem_str k (strings st) = false ->
+             forall v, In v vs -> exists x0, In (k, x0) (seen st) /\ v = parse_guess x0 }.
+
+  Lemma K0 : K (st0 F T D).
+  Proof. split; cbn; intros; try tauto; discriminate. Qed.
+
+  Lemma mem_cons_false k k0 l : mem_str k (k0 :: l) = false -> k <> k0 /\ mem_str k l = false.
+  Proof.
+    unfold mem_str. cbn [existsb]. intros H. apply orb_false_iff in H. destruct H as [H1 H2]. split; [|exact H2].
+    intros ->. rewrite str_eqb_refl in H1. discriminate.
+  Qed.
+
+  Lemma add_hit_K st kv st' : K st -> add_hit [] (Ok st) kv = Ok st' ->
+    K st' /\ In kv (seen st') /\ (forall p, In p (seen st) -> In p (seen st')) /\ (forall p, In p (seen st') -> In p (seen st) \/ p = kv).
+  Proof.
+    intros HK H. unfold Partition.add_hit in H. destruct kv as [key val]. cbn [fst snd] in H.
+    destruct (existsb (pair_eqb (key, val)) (seen st)) eqn:Es.
+    - injection H as <-. split; [exact HK|]. split; [|split; auto].
+      apply existsb_exists in Es. destruct Es as [p [Hp Ep]]. destruct (pair_eqb_spec (key, val) p) as [->|]; [exact Hp|discriminate].
+    - destruct (mem_str key (strings st)) eqn:Em.
+      + (* the level is already text: tp = VStr val *)
+        cbn in H. injection H as <-. cbn [st_seen st_raw st_strings st_cats].
+        split; [|split; [left; reflexivity|split; [intros p Hp; right; exact Hp|intros p [<-|Hp]; [right; reflexivity|left; exact Hp]]]].
+        assert (Hm : forall k, mem_str k (key :: strings st) = mem_str k (strings st)).
+        { intros k. unfold mem_str. cbn [existsb]. destruct (str_eqb_spec k key) as [->|]; [|reflexivity]. unfold mem_str in Em. rewrite Em. reflexivity. }
+        split; cbn [st_seen st_raw st_strings st_cats Partition.is_vstr].
+        * intros k Hk. rewrite Hm in Hk. destruct (k_text st HK k Hk) as [x' [H1 H2]]. exists x'. split; [right; exact H1|exact H2].
+        * intros k x [E|Hin] Hk; rewrite Hm in Hk.
+          -- injection E as <- <-. congruence.
+          -- destruct (k_seen st HK k x Hin Hk) as [vs [H1 H2]].
+             destruct (cats_add_mono F T D feqb teqb deqb f_eq_Z parse_time_fmt parse_time_pd parse_delta key (VStr val) _ k vs _ H1 H2) as [vs1 [H3 H4]].
+             exists vs1. split; assumption.
+        * intros k vs Hin Hk v Hv. rewrite Hm in Hk. apply cats_add_In in Hin. destruct Hin as [Hin|[-> _]]; [|congruence].
+          destruct (k_cats st HK k vs Hin Hk v Hv) as [x0 [H1 H2]]. exists x0. split; [right; exact H1|exact H2].
+      + (* not (yet) text: tp = parse_guess val *)
+        cbn in H. injection H as <-. cbn [st_seen st_raw st_strings st_cats].
+        split; [|split; [left; reflexivity|split; [intros p Hp; right; exact Hp|intros p [<-|Hp]; [right; reflexivity|left; exact Hp]]]].
+        split; cbn [st_seen st_raw st_strings st_cats].
+        * intros k Hk. destruct (is_vstr (parse_guess val)) eqn:Eg.
+          -- unfold mem_str in Hk. cbn [existsb] in Hk. destruct (str_eqb_spec k key) as [->|].
+             ++ exists val. split; [left; reflexivity|exact Eg].
+             ++ cbn [orb] in Hk. destruct (k_text st HK k Hk) as [x' [H1 H2]]. exists x'. split; [right; exact H1|exact H2].
+          -- destruct (k_text st HK k Hk) as [x' [H1 H2]]. exists x'. split; [right; exact H1|exact H2].
+        * intros k x [E|Hin] Hk.
+          -- injection E as <- <-. apply (cats_add_added F T D feqb teqb deqb f_eq_Z feqb_spec teqb_spec deqb_spec).
+          -- assert (Hk0 : mem_str k (strings st) = false).
+             { destruct (is_vstr (parse_guess val)); [apply mem_cons_false in Hk; apply Hk|exact Hk]. }
+             destruct (k_seen st HK k x Hin Hk0) as [vs [H1 H2]].
+             destruct (cats_add_mono F T D feqb teqb deqb f_eq_Z parse_time_fmt parse_time_pd parse_delta key (parse_guess val) _ k vs _ H1 H2) as [vs1 [H3 H4]].
+             exists vs1. split; assumption.
+        * intros k vs Hin Hk v Hv.
+          assert (Hk0 : mem_str k (strings st) = false).
+          { destruct (is_vstr (parse_guess val)); [apply mem_cons_false in Hk; apply Hk|exact Hk]. }
+          apply cats_add_In in Hin. destruct Hin as [Hin|[-> [->|[vs0 [Hin0 [->| ->]]]]]].
+          -- destruct (k_cats st HK k vs Hin Hk0 v Hv) as [x0 [H1 H2]]. exists x0. split; [right; exact H1|exact H2].
+          -- destruct Hv as [<-|[]]. exists val. split; [left; reflexivity|reflexivity].
+          -- destruct (k_cats st HK key vs0 Hin0 Hk0 v Hv) as [x0 [H1 H2]]. exists x0. split; [right; exact H1|exact H2].
+          -- apply in_app_or in Hv. destruct Hv as [Hv|[<-|[]]].
+             ++ destruct (k_cats st HK key vs0 Hin0 Hk0 v Hv) as [x0 [H1 H2]]. exists x0. split; [right; exact H1|exact H2].
+             ++ exists val. split; [left; reflexivity|reflexivity].
+  Qed.
+
+  Lemma fold_K hits : forall st st', K st -> fold_left (add_hit []) hits (Ok st) = Ok st' ->
+    K st' /\ (forall p, In p hits -> In p (seen st')) /\ (forall p, In p (seen st) -> In p (seen st')) /\
+    (forall p, In p (seen st') -> In p (seen st) \/ In p hits).
+  Proof.
+    induction hits as [|kv hits IH]; intros st st' HK H.
+    - cbn in H. injection H as <-. split; [exact HK|]. split; [intros p []|]. split; [auto|]. intros p Hp. left. exact Hp.
+    - cbn [fold_left] in H. destruct (add_hit [] (Ok st) kv) as [st1| |] eqn:E1.
+      + destruct (add_hit_K st kv st1 HK E1) as [HK1 [Hkv [Hmono Honly1]]].
+        destruct (IH st1 st' HK1 H) as [HK' [Hall [Hm' Honly]]]. split; [exact HK'|]. split; [|split].
+        * intros p [<-|Hp]; [apply Hm', Hkv|apply Hall, Hp].
+        * intros p Hp. apply Hm', Hmono, Hp.
+        * intros p Hp. destruct (Honly p Hp) as [H1|H1]; [|right; right; exact H1].
+          destruct (Honly1 p H1) as [H2|E]; [left; exact H2|right; left; symmetry; exact E].
+      + rewrite fold_left_res_err in H by reflexivity. discriminate.
+      + rewrite fold_left_res_err in H by reflexivity. discriminate.
+  Qed.
+
+  (* a level WITHOUT any text: the labels are guesses of its directory texts, and a row group reads a label that is == to the guess of
+     its own directory text *)
+  Theorem drill_numeric_level : forall (hits : list (str * str)) st,
+    fold_left (add_hit []) hits (Ok (st0 F T D)) = Ok st ->
+    forall k, (forall x', In (k, x') hits -> is_vstr (parse_guess x') = false) ->
+    forall x, In (k, x) hits ->
+    exists labels, In (k, labels) (final_cats st) /\
+      (forall v, In v labels -> exists x0, In (k, x0) hits /\ v = parse_guess x0) /\
+      exists i v, index_of veqb (parse_guess x) labels = Some i /\ nth_error labels i = Some v /\ veqb (parse_guess x) v = true.
+  Proof.
+    intros hits st H k Hnt x Hin. destruct (fold_K hits _ st K0 H) as [HK [Hall [_ Honly]]].
+    assert (Hk : mem_str k (strings st) = false).
+    { destruct (mem_str k (strings st)) eqn:E; [|reflexivity]. destruct (k_text st HK k E) as [x' [H1 H2]].
+      destruct (Honly _ H1) as [[]|H3]. rewrite (Hnt x' H3) in H2. discriminate. }
+    destruct (k_seen st HK k x (Hall _ Hin) Hk) as [vs [Hvs Hex]]. exists vs. split; [|split].
+    - unfold Partition.final_cats. apply in_map_iff. exists (k, vs). cbn [fst snd]. rewrite Hk. split; [reflexivity|exact Hvs].
+    - intros v Hv. destruct (k_cats st HK k vs Hvs Hk v Hv) as [x0 [H1 H2]]. exists x0. split; [|exact H2].
+      destruct (Honly _ H1) as [[]|H3]. exact H3.
+    - destruct (index_of_some veqb _ _ Hex) as [i Hi]. destruct (index_of_nth veqb _ _ _ Hi) as [v [Hv Hev]].
+      exists i, v. repeat split; assumption.
+  Qed.
+End NumericLevel.
+
+(* "the guessed value itself comes back" is FALSE for such a level: directories "1" and "True" (a text column whose texts all look like
+   numbers / booleans) - the rows of the directory True read the integer 1, which is == True (closed instance, computed) *)
+Theorem numeric_level_exact_refuted :
+  exists rows, cread [] (cwrite false [s_ "k"] [rows])
+             = Some (Drill, [([(s_ "dir0", VInt 1)], 0%nat); ([(s_ "dir0", VInt 1)], 1%nat)])
+             /\ parse_guess E0 E0 E0 (fun _ _ => None) (fun _ => None) (fun _ => None) (s_ "True") = VBool true.
+Proof.
+  exists [([Some (VStr (s_ "1"))], 0%nat); ([Some (VStr (s_ "True"))], 1%nat)]. split; vm_compute; reflexivity.
+Qed.
